@@ -42,7 +42,8 @@ ASSUMPTIONS = [
 def floors(tier):
     return {"codec-exhaustive": 190000, "codec": 3000, "refuse": 1500, "nomval": 40,
             "checksum": 60000, "checksum-saturated": 4000, "isvalid": 500, "itow": 20000, "get_bits": 1000, "val2sphp": 1000,
-            "protocol": 65536, "att": 500}
+            "protocol": 65536, "att": 500,
+            "text": 300, "text:chars<=width<bytes": 60}
 
 
 def types():
@@ -109,6 +110,30 @@ def chk_refuse(t, val):
         how = "short" if len(val) < codec.tsize(t) else ("long" if len(val) > codec.tsize(t) else "bad-element")
     return [(f"{PROP}|val2bytes|{t[0]}|accepts-{how}",
              f"val2bytes({val!r:.60}, {t}) returned {b!r:.60} instead of refusing")]
+
+
+def chk_text(t, text):
+    """A fixed-width character attribute given text (str): the result has exactly the
+    type's width - the UTF-8 encoding padded with NUL - or the value is refused; text
+    whose encoding is longer than the width does not fit and must be refused."""
+    import pyubx2
+
+    n = codec.tsize(t)
+    try:
+        enc = text.encode("utf-8")
+    except UnicodeEncodeError:
+        enc = None
+    try:
+        b = pyubx2.val2bytes(text, t)
+    except Exception:  # noqa - refusal (C15 judges the exception type)
+        if enc is not None and len(enc) <= n:
+            return [(f"{PROP}|val2bytes|C|text-refused", f"val2bytes({text!r}, {t}) refused text of {len(enc)} bytes")]
+        return []
+    if not isinstance(b, bytes) or len(b) != n:
+        return [(f"{PROP}|val2bytes|C|text-width", f"val2bytes({text!r}, {t}) -> {b!r} ({len(b)} bytes for a width of {n})")]
+    if enc is not None and b != enc.ljust(n, b"\x00"):
+        return [(f"{PROP}|val2bytes|C|text-bytes", f"val2bytes({text!r}, {t}) = {b!r}, expected {enc.ljust(n, bytes(1))!r}")]
+    return []
 
 
 def chk_nomval(t):
@@ -284,6 +309,12 @@ def check(case) -> core.Out:
         out.viol = chk_refuse(case["t"], case["val"])
         out.nontrivial = True
         out.sample = {"type": case["t"], "value": repr(case["val"])[:40]}
+    elif k == "text":
+        out.viol = chk_text(case["t"], case["text"])
+        enc = case["text"].encode("utf-8", "replace")
+        out.nontrivial = len(case["text"]) != len(enc)
+        out.classes = ["text"] + (["text:chars<=width<bytes"] if len(case["text"]) <= codec.tsize(case["t"]) < len(enc) else [])
+        out.sample = {"type": case["t"], "text": case["text"][:20]}
     elif k == "nomval":
         out.viol = chk_nomval(case["t"])
         out.nontrivial = True
@@ -457,6 +488,15 @@ def run_shard(spec, ctx, acc):
             core.hyp_search(acc, strat, check, seed=sd("codec", t), max_examples=80 * n, known=known)
             case = {"kind": "nomval", "t": t}
             core.handle(acc, core.checked(check, case), case, known)
+            if t != "CH" and t[0] == "C":
+                # text for a fixed-width character attribute: widths counted in bytes, not characters
+                w = codec.tsize(t)
+                alpha = "aZ09 _\xe9\xfc\u20ac\u6e2c\U0001f600\x00"
+                strat = st.one_of(st.integers(max(0, w - 3), w + 1).flatmap(
+                    lambda m: st.text(alphabet=alpha, min_size=m, max_size=m)),
+                    st.text(alphabet=alpha, max_size=w + 2), st.text(max_size=w + 2)).map(
+                    lambda x, t=t: {"kind": "text", "t": t, "text": x})
+                core.hyp_search(acc, strat, check, seed=sd("text", t), max_examples=60 * n, known=known)
     elif part == 1:
         for t in ts:
             if t == "CH" or t[0] == "R":
